@@ -125,7 +125,11 @@ func serve(req *proto.RunReq) (resp *proto.RunResp) {
 	}
 	rec.beginExec()
 	rec.point("phase", "before-execute")
-	if err := c.Execute(context.Background(), gens...); err != nil {
+	// the caller's context can be cancelled at a scheduled event (a CLI reacting to ctrl-c)
+	ctx, cancel := context.WithCancel(context.Background())
+	rec.cancel = cancel
+	defer cancel()
+	if err := c.Execute(ctx, gens...); err != nil {
 		resp.ExecErr = err.Error()
 		if resp.ExecErr == "" {
 			resp.ExecErr = "error"
